@@ -63,6 +63,7 @@ func runC19(c *Ctx, r *Report) {
 	c19UnaryAgreement(c, r, "C19-f/unary-agreement")
 	c19ConstNodes(c, r, "C19-c/const-nodes")
 	c19GroupOpaque(c, r, "C19-g/group-opaque")
+	c19BindingErrors(c, r, "C19-d/binding-errors")
 }
 
 func scannerGuard2(c *Ctx, r *Report) {
